@@ -105,7 +105,8 @@ func valuesFor(l leaf, def string) (fileV, envV string) {
 	}
 	switch l.Type {
 	case "string", "enum":
-		return "file-" + strings.ReplaceAll(l.Key, ".", "-"), "env-" + strings.ReplaceAll(l.Key, ".", "-")
+		// values are taken verbatim: nothing in them is expanded, trimmed or interpreted
+		return "file-$X ${HOME}-$$-%s #k: " + strings.ReplaceAll(l.Key, ".", "-"), "env-$Y ${PATH} %d #e: " + strings.ReplaceAll(l.Key, ".", "-")
 	case "int":
 		return "4242", "7373"
 	case "uint16":
@@ -201,6 +202,7 @@ func opConfig() error {
 				Prepared bool   `json:"prepared"`
 				Ppath    bool   `json:"ppath"`
 				Pexists  bool   `json:"pexists"`
+				Dbexists bool   `json:"dbexists"`
 			} `json:"row"`
 			Accept bool `json:"accept"`
 		} `json:"validation"`
@@ -278,8 +280,13 @@ func opConfig() error {
 			}
 			return off
 		}
+		dbFile := filepath.Join(dir, "not-there.db")
+		if r.Dbexists {
+			dbFile = filepath.Join(dir, "there.db")
+			_ = os.WriteFile(dbFile, []byte{}, 0o644)
+		}
 		kv := map[string]string{
-			"db.engine": r.Engine, "db.sqlite.file_path": b(r.Sqlite, "/tmp/x.db", ""),
+			"db.engine": r.Engine, "db.sqlite.file_path": b(r.Sqlite, dbFile, ""),
 			"db.postgres.host": b(r.Host, "pg.example", ""), "db.postgres.port": b(r.Port, "5433", "0"),
 			"db.postgres.user": b(r.User, "u", ""), "db.postgres.db_name": b(r.Dbname, "d", ""),
 			"db.prepared_db": b(r.Prepared, "true", "false"),
